@@ -14,7 +14,9 @@ import (
 	"net/http"
 	"os"
 	"path/filepath"
+	"regexp"
 	"sort"
+	"strconv"
 	"strings"
 	"sync"
 	"sync/atomic"
@@ -383,6 +385,29 @@ func (c *Cluster) Kill(id int) {
 }
 
 // Pause/Resume stop and continue a node process.
+var reBecame = regexp.MustCompile(`INFO: (\d+) became (leader|follower|candidate|pre-candidate) at term (\d+)`)
+
+// Leader returns the running node whose last announced raft role is leader (highest term wins), or 0.
+func (c *Cluster) Leader() int {
+	best, bestTerm := 0, -1
+	for _, nd := range c.Nodes {
+		if nd.Srv == nil || nd.Srv.Exited() {
+			continue
+		}
+		role, term := "", 0
+		for _, l := range c.Grep(nd.ID, []string{" became "}, 300, 100000) {
+			if m := reBecame.FindStringSubmatch(l); m != nil {
+				role = m[2]
+				term, _ = strconv.Atoi(m[3])
+			}
+		}
+		if role == "leader" && term > bestTerm {
+			best, bestTerm = nd.ID, term
+		}
+	}
+	return best
+}
+
 func (c *Cluster) Pause(id int)  { c.Nodes[id-1].Srv.Signal(syscall.SIGSTOP) }
 func (c *Cluster) Resume(id int) { c.Nodes[id-1].Srv.Signal(syscall.SIGCONT) }
 
